@@ -2177,8 +2177,19 @@ impl Archive {
                 );
             }
 
+            // For single unit files with a sector checksum, one ADLER32 of the plain
+            // content follows the data (same layout `read_file` validates). Read it now,
+            // while the reader still stands right after the data.
+            let expected_crc = if file_info.has_sector_crc() && file_info.is_single_unit() {
+                let mut crc_bytes = [0u8; 4];
+                self.reader.read_exact(&mut crc_bytes)?;
+                Some(u32::from_le_bytes(crc_bytes))
+            } else {
+                None
+            };
+
             // Handle compression for single unit files
-            if file_info.is_compressed() {
+            let plain = if file_info.is_compressed() {
                 if data.is_empty() {
                     return Err(Error::compression("File data is empty"));
                 }
@@ -2190,7 +2201,7 @@ impl Archive {
                         data.len(),
                         actual_file_size
                     );
-                    compression::decompress(&data, 0x08, actual_file_size as usize)
+                    compression::decompress(&data, 0x08, actual_file_size as usize)?
                 } else {
                     // COMPRESS flag - has compression type byte prefix
                     if data.is_empty() {
@@ -2211,11 +2222,25 @@ impl Archive {
                         compressed_data,
                         compression_type,
                         actual_file_size as usize,
-                    )
+                    )?
                 }
             } else {
-                Ok(data)
+                data
+            };
+
+            // MPQ uses ADLER32 for sector checksums, computed over the plain content
+            if let Some(expected) = expected_crc {
+                let actual = adler2::adler32_slice(&plain);
+                if actual != expected {
+                    return Err(Error::ChecksumMismatch {
+                        file: file_info.filename.clone(),
+                        expected,
+                        actual,
+                    });
+                }
             }
+
+            Ok(plain)
         } else {
             // Multi-sector compressed file
             self.read_sectored_file(&file_info, key)
